@@ -510,4 +510,174 @@ theorem pickParent_qt (w : Nat) (X : Option Nat) (g : Graph) (s : State) (n v c 
   · simp only [Option.some.injEq, Prod.mk.injEq] at h
     rw [← h.2]; exact qt_setCr w X s _ _
 
+/-! ## picks -/
+
+theorem pk_mem_insertBy (le : Nat → Nat → Bool) (a x : Nat) (l : List Nat) (h : x ∈ insertBy le a l) : x = a ∨ x ∈ l := by
+  induction l with
+  | nil => simp [insertBy] at h; exact Or.inl h
+  | cons b r ih =>
+    unfold insertBy at h
+    split at h
+    · simpa using h
+    · rcases List.mem_cons.mp h with h | h
+      · right; rw [h]; exact List.mem_cons_self
+      · rcases ih h with h | h
+        · exact Or.inl h
+        · right; exact List.mem_cons_of_mem _ h
+
+theorem pk_mem_stableSort (le : Nat → Nat → Bool) (x : Nat) (l : List Nat) (h : x ∈ stableSort le l) : x ∈ l := by
+  induction l with
+  | nil => simp [stableSort] at h
+  | cons a r ih =>
+    unfold stableSort at h
+    simp only [List.foldr_cons] at h
+    rcases pk_mem_insertBy le a x _ h with h | h
+    · rw [h]; exact List.mem_cons_self
+    · exact List.mem_cons_of_mem _ (ih h)
+
+theorem pickChild_rel (g : Graph) (s : State) (n w c : Nat) (s' : State) (h : pickChild g s n w = some (c, s')) :
+    relevant g w c = true ∧ c ∈ (g.node n).cleanup.map (·.1) := by
+  unfold pickChild at h
+  dsimp only at h
+  split at h
+  · simp at h
+  · rename_i d r hs
+    simp only [Option.some.injEq, Prod.mk.injEq] at h
+    have hd := pk_mem_stableSort _ d _ (by rw [hs]; exact List.mem_cons_self)
+    rw [List.mem_filter] at hd
+    have h2 := hd.2
+    simp only [Bool.and_eq_true] at h2
+    rw [← h.1]; exact ⟨h2.1, hd.1⟩
+
+theorem pickParent_rel (g : Graph) (s : State) (n w c : Nat) (s' : State) (h : pickParent g s n w = some (c, s')) :
+    relevant g w c = true ∧ c ∈ (g.node n).setup.map (·.1) := by
+  unfold pickParent at h
+  dsimp only at h
+  split at h
+  · simp at h
+  · rename_i d r hs
+    simp only [Option.some.injEq, Prod.mk.injEq] at h
+    have hd := pk_mem_stableSort _ d _ (by rw [hs]; exact List.mem_cons_self)
+    rw [List.mem_filter] at hd
+    have h2 := hd.2
+    simp only [Bool.and_eq_true] at h2
+    rw [← h.1]; exact ⟨h2.1, hd.1⟩
+
+/-! ## the effect of a piece of worker `w`'s step -/
+
+/-- what a piece of `w`'s step does outside `w`'s own record -/
+structure Eff (w : Nat) (X : Option Nat) (s s' : State) : Prop where
+  workersLen : s'.workers.length = s.workers.length
+  nodesLen : s'.nodes.length = s.nodes.length
+  hidden : s'.hidden = s.hidden
+  others : ∀ v, v ≠ w → s'.wd v = s.wd v
+  marks : ∀ i, (s'.nd i).started = (s.nd i).started ∨ (s'.nd i).started = none ∨
+    (X = some i ∧ (s'.nd i).started = some w)
+
+theorem Eff.refl (w : Nat) (X : Option Nat) (s : State) : Eff w X s s := ⟨rfl, rfl, rfl, fun _ _ => rfl, fun _ => Or.inl rfl⟩
+
+theorem Eff.trans {w : Nat} {X : Option Nat} {s s1 s2 : State} (a : Eff w X s s1) (b : Eff w X s1 s2) : Eff w X s s2 := by
+  refine ⟨b.workersLen.trans a.workersLen, b.nodesLen.trans a.nodesLen, b.hidden.trans a.hidden,
+    fun v hv => (b.others v hv).trans (a.others v hv), fun i => ?_⟩
+  rcases b.marks i with h | h | h
+  · rw [h]; exact a.marks i
+  · exact Or.inr (Or.inl h)
+  · exact Or.inr (Or.inr h)
+
+theorem Eff.weaken {w : Nat} {X : Option Nat} {s s' : State} (a : Eff w none s s') : Eff w X s s' := by
+  refine ⟨a.workersLen, a.nodesLen, a.hidden, a.others, fun i => ?_⟩
+  rcases a.marks i with h | h | h
+  · exact Or.inl h
+  · exact Or.inr (Or.inl h)
+  · exact absurd h.1 (by simp)
+
+theorem Qt.eff {w : Nat} {X : Option Nat} {s s' : State} (a : Qt w X s s') : Eff w X s s' :=
+  ⟨by rw [a.workers], a.nodesLen, a.hidden, fun v _ => a.wd v, a.marks⟩
+
+theorem eff_setWd (w : Nat) (X : Option Nat) (s : State) (f : WorkerD → WorkerD) : Eff w X s (s.setWd w f) :=
+  ⟨by simp [State.setWd], rfl, rfl, fun v hv => wd_setWd_ne s w v f hv, fun _ => Or.inl rfl⟩
+
+theorem Eff.setWd {w : Nat} {X : Option Nat} {s s1 : State} (a : Eff w X s s1) (f : WorkerD → WorkerD) :
+    Eff w X s (s1.setWd w f) := a.trans (eff_setWd w X s1 f)
+
+theorem Eff.wd_setWd {w : Nat} {X : Option Nat} {s s1 : State} (a : Eff w X s s1) (hw : w < s.workers.length)
+    (f : WorkerD → WorkerD) : (s1.setWd w f).wd w = f (s1.wd w) :=
+  wd_setWd_eq s1 w f (by rw [a.workersLen]; exact hw)
+
+/-- how a piece of the walk may change the path -/
+def PathEff (gv : Graph) (w : Nat) (p p' : List Nat) : Prop :=
+  p' = p ∨ (p' = p.dropLast ∧ 2 ≤ p.length) ∨ p' = [gv.root] ∨
+    ∃ last c, p.getLast? = some last ∧ p' = p ++ [c] ∧ relevant gv w c = true ∧ Adj gv last c
+
+theorem afterTraverse_ok (gv : Graph) (hsym : EdgeSym gv) (s : State) (w next prev : Nat) (dir : Dir)
+    (hw : w < s.workers.length) (hlast : (s.wd w).path.getLast? = some next) (hlen : 2 ≤ (s.wd w).path.length) :
+    Eff w none s (afterTraverse gv s w next prev dir).1 ∧
+    ((afterTraverse gv s w next prev dir).1.wd w).pc = (s.wd w).pc ∧
+    PathEff gv w (s.wd w).path ((afterTraverse gv s w next prev dir).1.wd w).path ∧
+    DoorsOnly (afterTraverse gv s w next prev dir).2.1 := by
+  unfold afterTraverse
+  cases hrd : runDecision gv s next w with
+  | error e => exact ⟨Eff.refl _ _ _, rfl, Or.inl rfl, DoorsOnly.nil⟩
+  | ok r =>
+    obtain ⟨run, s1, evs⟩ := r
+    have q1 : Qt w none s s1 := qt_runDecision w none gv s next w run s1 evs hrd
+    have hd1 : DoorsOnly evs := runDecision_doors gv s next w run s1 evs hrd
+    have hw1 : w < s1.workers.length := by rw [q1.workers]; exact hw
+    -- the leaf "pop"
+    have pop : ∀ s2, Qt w none s s2 →
+        Eff w none s (popPath s2 w) ∧ ((popPath s2 w).wd w).pc = (s.wd w).pc ∧
+          PathEff gv w (s.wd w).path ((popPath s2 w).wd w).path := by
+      intro s2 q2
+      unfold popPath
+      rw [q2.eff.wd_setWd hw, q2.wd w]
+      exact ⟨q2.eff.setWd _, rfl, Or.inr (Or.inl ⟨rfl, hlen⟩)⟩
+    cases dir with
+    | up =>
+      dsimp only
+      have q2 : Qt w none s (if (!run) = true then dropParent gv s1 prev next w else s1) := by
+        split
+        · exact q1.trans (qt_setCr w none s1 _ _)
+        · exact q1
+      obtain ⟨a, b, c⟩ := pop _ q2
+      exact ⟨a, b, c, hd1⟩
+    | down =>
+      dsimp only
+      by_cases hrun : run = true
+      · simp only [hrun, if_true]
+        obtain ⟨a, b, c⟩ := pop _ q1
+        exact ⟨a, b, c, hd1⟩
+      · simp only [hrun, Bool.false_eq_true, if_false]
+        by_cases hc : isCleanupReady gv s1 next w = true
+        · simp only [hc, if_true]
+          by_cases hpp : (!(gv.node next).flat && (s1.wd w).unexplored) = true
+          · simp only [hpp, if_true]
+            rw [q1.eff.wd_setWd hw, q1.wd w]
+            exact ⟨q1.eff.setWd _, rfl, Or.inr (Or.inr (Or.inl rfl)), hd1⟩
+          · simp only [hpp, Bool.false_eq_true, if_false]
+            have q2 : Qt w none s ((gv.node next).setup.foldl (fun s x => dropChild gv s x.1 next w) s1) :=
+              q1.trans (qt_dropChildren w none gv s1 next w _)
+            cases hr : reverseNode gv (List.foldl (fun s x => dropChild gv s x.1 next w) s1 (gv.node next).setup) next w with
+            | error e =>
+              dsimp only
+              exact ⟨q2.eff, by rw [q2.wd w], by rw [q2.wd w]; exact Or.inl rfl, hd1⟩
+            | ok r =>
+              obtain ⟨s3, evs3⟩ := r
+              dsimp only
+              obtain ⟨q3, hd3⟩ := reverseNode_qt w gv _ next w s3 evs3 hr
+              obtain ⟨a, b, c⟩ := pop _ (q2.trans q3)
+              exact ⟨a, b, c, hd1.append hd3⟩
+        · simp only [hc, Bool.false_eq_true, if_false]
+          cases hp : pickChild gv s1 next w with
+          | none =>
+            dsimp only
+            exact ⟨q1.eff, by rw [q1.wd w], by rw [q1.wd w]; exact Or.inl rfl, hd1⟩
+          | some r =>
+            obtain ⟨c, s3⟩ := r
+            dsimp only
+            have q3 : Qt w none s s3 := q1.trans (pickChild_qt w none gv s1 next w c s3 hp)
+            obtain ⟨hrel, hmem⟩ := pickChild_rel gv s1 next w c s3 hp
+            unfold pushPath
+            rw [q3.eff.wd_setWd hw, q3.wd w]
+            refine ⟨q3.eff.setWd _, rfl, Or.inr (Or.inr (Or.inr ⟨next, c, hlast, rfl, hrel, Or.inl ((hsym next c).mpr hmem)⟩)), hd1⟩
+
 end I2N.Trav
